@@ -105,7 +105,12 @@ pub fn judge<S: rsbdd::BDDSymbol>(sp: &Space<S>, res: &Rc<BDD<S>>, want: u64, or
     }
     if oracle.canonical {
         let c = sp.canon(want);
-        if **res != *c {
+        // structure is judged by the harness's own walker; the subject's `==` must agree with it
+        let same = robdd::same_small(res, &c);
+        if (**res == *c) != same {
+            out.push(format!("`==` says {} for {} and {}, which are structurally {}", **res == *c, robdd::show(res), robdd::show(&c), if same { "identical" } else { "different" }));
+        }
+        if !same {
             out.push(format!("result is not the reduced ordered diagram of its function: got {}, canonical {}", robdd::show(res), robdd::show(&c)));
         } else {
             if res.get_hash() != c.get_hash() || crate::runner::fxhash(res.as_ref()) != crate::runner::fxhash(c.as_ref()) {
@@ -225,7 +230,9 @@ fn nw_intern(env: &Rc<rsbdd::bdd::BDDEnv<NamedSymbol>>, b: &BDD<NamedSymbol>) ->
 }
 
 fn nw_check(ctx: &mut Ctx, env: &Rc<rsbdd::bdd::BDDEnv<NamedSymbol>>, syms: &[NamedSymbol], op: ApiOp, tts: &[u64], oracle: Oracle, prop_tag: &str) {
-    let case = json!({"part": "named-wide", "op": op.name(), "operands": tts});
+    // the sweep shares one environment per worker, so a violation may depend on what that worker
+    // computed before: the case records the shard, and a replay re-runs that shard's sequence
+    let case = json!({"part": "named-wide", "op": op.name(), "operands": tts, "shard": ctx.shard, "nshards": ctx.nshards});
     ctx.begin_case(|| case.clone());
     ctx.count("transitions", 1);
     ctx.count("named_wide_ids", 1);
@@ -290,14 +297,14 @@ pub fn sweep_named_wide(ctx: &mut Ctx, oracle: Oracle, prop_tag: &str) {
 }
 
 pub fn replay_named_wide(ctx: &mut Ctx, case: &Value, oracle: Oracle, prop_tag: &str) {
-    let Some(op) = case["op"].as_str().and_then(ApiOp::parse) else { return };
-    let tts: Vec<u64> = case["operands"].as_array().map(|a| a.iter().filter_map(|v| v.as_u64()).collect()).unwrap_or_default();
-    if tts.len() != op.arity() {
-        return;
+    let (shard, nshards) = (case["shard"].as_u64().unwrap_or(0), case["nshards"].as_u64().unwrap_or(1).max(1));
+    let mut c2 = Ctx::new(prop_tag, ctx.tier, ctx.seed, shard, nshards);
+    sweep_named_wide(&mut c2, oracle, prop_tag);
+    for v in c2.violations {
+        if v.replay["op"] == case["op"] && v.replay["operands"] == case["operands"] {
+            ctx.violation(v.key, v.what, v.replay);
+        }
     }
-    let syms = nw_syms();
-    let env = Rc::new(rsbdd::bdd::BDDEnv::<NamedSymbol>::new());
-    nw_check(ctx, &env, &syms, op, &tts, oracle, prop_tag);
 }
 
 /// Complete pair sweep over F_4 (2^16 x 2^16 operand pairs per connective) with a lean inner
@@ -367,7 +374,7 @@ pub fn reps4_sweep(ctx: &mut Ctx, oracle: Oracle, prop_tag: &str, ops: &[Bin]) {
                     let want = bin_tt(b, x, y, sp.full);
                     let ok = guarded(|| {
                         let res = apply_api(&sp, op, &[hs[x as usize].clone(), hs[y as usize].clone()]);
-                        (!oracle.semantic || sp.tt(&res) == Ok(want)) && (!oracle.canonical || (*canon[want as usize] == *res && (want == sp.full) == res.is_true() && (want == 0) == res.is_false()))
+                        (!oracle.semantic || sp.tt(&res) == Ok(want)) && (!oracle.canonical || (robdd::same_small(&canon[want as usize], &res) && *canon[want as usize] == *res && (want == sp.full) == res.is_true() && (want == 0) == res.is_false()))
                     });
                     ctx.count("class_representative_pairs_k4", 1);
                     ctx.count("distinct_by_construction", 1);
@@ -450,7 +457,7 @@ pub fn pairs4_sweep(ctx: &mut Ctx, oracle: Oracle, prop_tag: &str, ops: &[Bin], 
                     }
                     if oracle.canonical {
                         let c = &canon[want as usize];
-                        if **c != *res {
+                        if !robdd::same_small(c, &res) || **c != *res {
                             ok = false;
                         }
                         if (want == sp.full) != res.is_true() || (want == 0) != res.is_false() {
